@@ -190,6 +190,11 @@ func (e *Exec) libCall(s *State, ins ssa.Instruction, callee *ssa.Function, full
 		e.logAbs("sync.Cond: not modelled")
 		return nil, true
 	}
+	if full == "encoding/binary.Write" || full == "encoding/binary.Read" {
+		if r, ok := e.binaryRW(s, ins, full, args); ok {
+			return r, true
+		}
+	}
 	if strings.HasPrefix(full, "sync/atomic.") || strings.HasPrefix(full, "(*sync/atomic.") {
 		e.logAbs("sync/atomic operation: unconstrained result")
 		if t := sigResult(callee.Signature); t != nil {
@@ -198,4 +203,57 @@ func (e *Exec) libCall(s *State, ins ssa.Instruction, callee *ssa.Function, full
 		return nil, true
 	}
 	return nil, false
+}
+
+// binaryRW models encoding/binary.Write / Read for fixed-width unsigned integers through the
+// pseudo-extern contracts binary.WriteU16/32/64 and binary.ReadU16/32/64 of the contract file.
+func (e *Exec) binaryRW(s *State, ins ssa.Instruction, full string, args []Value) (Value, bool) {
+	call, ok := ins.(*ssa.Call)
+	if !ok || len(call.Call.Args) != 3 {
+		return nil, false
+	}
+	mi, ok := call.Call.Args[2].(*ssa.MakeInterface)
+	if !ok {
+		return nil, false
+	}
+	errT := types.Universe.Lookup("error").Type()
+	errVar := types.NewVar(0, nil, "err", errT)
+	if full == "encoding/binary.Write" {
+		t := mi.X.Type()
+		w, signed, isInt := intInfo(t)
+		if !isInt || signed || w < 16 {
+			return nil, false
+		}
+		fc := e.v.db.Funcs[fmt.Sprintf("binary.WriteU%d", w)]
+		if fc == nil {
+			return nil, false
+		}
+		sig := types.NewSignatureType(nil, nil, nil,
+			types.NewTuple(types.NewVar(0, nil, "w", call.Call.Args[0].Type()), types.NewVar(0, nil, "v", t)),
+			types.NewTuple(errVar), false)
+		return e.applyContract(s, ins, fc, sig, nil, []Value{args[0], e.val(s, mi.X)}, ins.Pos()), true
+	}
+	pt, ok := mi.X.Type().Underlying().(*types.Pointer)
+	if !ok {
+		return nil, false
+	}
+	t := pt.Elem()
+	w, signed, isInt := intInfo(t)
+	if !isInt || signed || w < 16 {
+		return nil, false
+	}
+	fc := e.v.db.Funcs[fmt.Sprintf("binary.ReadU%d", w)]
+	if fc == nil {
+		return nil, false
+	}
+	sig := types.NewSignatureType(nil, nil, nil,
+		types.NewTuple(types.NewVar(0, nil, "r", call.Call.Args[0].Type())),
+		types.NewTuple(types.NewVar(0, nil, "v", t), errVar), false)
+	res := e.applyContract(s, ins, fc, sig, nil, []Value{args[0]}, ins.Pos()).(*TupleV)
+	ptr := e.val(s, mi.X)
+	loc := e.resolve(ptr, t)
+	old := e.readLoc(s, loc).(*Node)
+	errv := res.E[1].(*Node)
+	e.writeLoc(s, loc, Ite(Eq(errv, ifaceNil()), res.E[0].(*Node), old))
+	return errv, true
 }
